@@ -268,7 +268,11 @@ func runStream(w *bufio.Writer, r *u.Rng, scramble bool, g genCH, extra []byte, 
 			}
 			return false
 		}
-		if scramble && !complete && has {
+		// "the whole ClientHello" is the first complete handshake message (type, 24-bit length, body):
+		// the generated kind trailing-byte still has a byte to write after it, and a split exactly
+		// behind the message legitimately makes HasData true at that point
+		msgComplete := len(W) >= 4 && len(W) >= 4+(int(W[1])<<16|int(W[2])<<8|int(W[3]))
+		if scramble && !complete && !msgComplete && has {
 			fail("scrambler/hasdata-early", "HasData is true before the whole ClientHello is queued")
 		}
 		if complete && len(W) > 0 && !has && g.unparsable {
